@@ -399,6 +399,64 @@ impl Ev {
     fn _n(&self) {}
 }
 
+/// X3: with the write buffer filled to every level around "full", two PINGs and a SETTINGS arrive: after the transport opens,
+/// both PONGs (in order, right payloads) and the SETTINGS ACK are on the wire, each exactly once.
+pub fn fill_sweep_one(vectored: bool, fill: usize, verbose: bool) -> Vec<(String, String, String)> {
+    let mut v = vec![];
+    let cfg = T2Cfg { role: Side::Server, peer_settings: vec![], client: None, server: Some(h2::server::Builder::new()), policy: IoPolicy { vectored, ..IoPolicy::default() } };
+    let mut t = T2::new(&cfg, vec![]);
+    let mut panics = vec![];
+    t.peer_request(1, "/f", false);
+    t.drive(100);
+    t.peer_ack_settings();
+    t.drive(100);
+    t.catch_up();
+    let acks_before = t.subject_frames().iter().filter(|f| matches!(&f.parsed, Ok(Parsed::Settings { ack: true, .. }))).count();
+    fill_write_buffer(&mut t, 1, fill, vectored, &mut panics);
+    t.peer_send(&wf::ping([0xa1; 8], false));
+    t.peer_send(&wf::settings(&[(wf::setting::MAX_CONCURRENT_STREAMS, 9)]));
+    t.peer_send(&wf::ping([0xb2; 8], false));
+    t.drive(100);
+    unblock_and_quiesce(&mut t);
+    let pongs: Vec<[u8; 8]> = t.subject_frames().iter().filter_map(|f| if let Ok(Parsed::Ping { ack: true, payload }) = &f.parsed { Some(*payload) } else { None }).collect();
+    let acks = t.subject_frames().iter().filter(|f| matches!(&f.parsed, Ok(Parsed::Settings { ack: true, .. }))).count() - acks_before;
+    if t.conn_alive() {
+        if pongs != vec![[0xa1; 8], [0xb2; 8]] {
+            v.push(("C14.pong-sequence".to_string(), "fill-sweep".into(), format!("write buffer filled with {} octets (vectored {}): PINGs a1.. and b2.. were received, the PONGs written are {:?}", fill, vectored, pongs.iter().map(|p| format!("{:02x}", p[0])).collect::<Vec<_>>())));
+        }
+        if acks != 1 {
+            v.push(("C14.settings-ack-count".into(), "fill-sweep".into(), format!("write buffer filled with {} octets (vectored {}): one SETTINGS frame was received, {} acknowledgements were written", fill, vectored, acks)));
+        }
+    }
+    if verbose {
+        println!("fill {} vectored {}: pongs {:?} settings acks {}", fill, vectored, pongs, acks);
+    }
+    t.panics.extend(panics);
+    for p in t.finish() {
+        v.push(("C14.panic".into(), "fill-sweep".into(), format!("fill {} vectored {}: panic {}", fill, vectored, p.lines().next().unwrap_or(""))));
+    }
+    v
+}
+
+pub fn fill_sweep(out: &mut Outcome, vios: &mut VioSet, quick: bool) {
+    let jobs = fill_levels(quick);
+    let found = std::sync::Mutex::new(vec![]);
+    par_for(jobs.len(), |i| {
+        let vs = fill_sweep_one(jobs[i].0, jobs[i].1, false);
+        if !vs.is_empty() {
+            found.lock().unwrap().push((jobs[i], vs));
+        }
+    });
+    for ((vectored, fill), vs) in found.into_inner().unwrap() {
+        for (rule, sig, what) in vs {
+            vios.add(Violation { rule, signature: sig, what, replay: json!({"harness": "c14.fill", "vectored": vectored, "fill": fill}) });
+        }
+    }
+    out.harness("write-buffer-fill-sweep", json!({"cases": jobs.len()}));
+    out.add_count("evaluations", jobs.len() as u64);
+    out.add_count("traces_validated_against_impl", jobs.len() as u64);
+}
+
 pub fn run(ctx: &Ctx) -> Outcome {
     let mut out = Outcome::default();
     let quick = ctx.tier.is_quick();
@@ -411,7 +469,10 @@ pub fn run(ctx: &Ctx) -> Outcome {
     out.set("alphabet", json!((0..m.n_events()).map(|e| m.event_name(e)).collect::<Vec<_>>()));
     out.set("rule", json!("X2 on T2 (real server, one open stream): peer SETTINGS from a 9-entry menu (empty, table size 0 / 8192, window 7 / 70000, frame size 16385 / 20000, push off, header list size + unknown id) up to 4 in a row, PINGs with 4 payloads (incl. the payloads h2 itself uses for shutdown and user pings) up to 3, stray SETTINGS ACK, stray PING ACK, peer ACK timing, DATA, WINDOW_UPDATE; application user ping, set_initial_window_size down / up, response with a 40 KB body; connection polls with open, budgeted (1 / 9 / 17 octets) and blocked writes. Invariants in every state: SETTINGS acks written <= SETTINGS received, PONG payloads a prefix of PING payloads, every frame written after an ACK obeys the acknowledged MAX_FRAME_SIZE / windows (wire accountant) / ENABLE_PUSH, the first header block after a lowered HEADER_TABLE_SIZE starts with the size update (reference decoder, strict). Epilogue: at quiescence the counts are equal, a stray SETTINGS ACK has ended the connection with GOAWAY, no FLOW_CONTROL_ERROR while the peer stayed inside the window it was entitled to before its ACK"));
     out.add_sample(json!({"harness": format!("x2.{}", m.name), "depth": 3, "choices": [4, 20, 17]}));
-    out.violations = rep.agg.vios.into_vec();
+    let mut vs = VioSet::default();
+    vs.merge(rep.agg.vios);
+    fill_sweep(&mut out, &mut vs, ctx.tier.is_quick());
+    out.violations = vs.into_vec();
     out.guard_nonzero("settings acks", out.coverage.get("mechanism_counters").and_then(|m| m.get("settings_acks")).and_then(|v| v.as_u64()).unwrap_or(0));
     out.guard_nonzero("pongs", out.coverage.get("mechanism_counters").and_then(|m| m.get("pongs")).and_then(|v| v.as_u64()).unwrap_or(0));
     out
@@ -419,6 +480,13 @@ pub fn run(ctx: &Ctx) -> Outcome {
 
 pub fn replay(v: &serde_json::Value) -> Option<bool> {
     let h = v["harness"].as_str().unwrap_or("");
+    if h == "c14.fill" {
+        let vs = fill_sweep_one(v["vectored"].as_bool().unwrap_or(false), v["fill"].as_u64().unwrap_or(0) as usize, true);
+        for (r, _, w) in &vs {
+            println!("RULE VIOLATED: {} {}", r, w);
+        }
+        return Some(!vs.is_empty());
+    }
     for quick in [true, false] {
         let m = AckModel::new(if quick { "acks-q" } else { "acks-t" }, quick);
         if h == format!("x2.{}", m.name) {
